@@ -188,6 +188,21 @@ def design_check(ctx, module, cfg, timeout=900, workers=None, consts=None, extra
     return r
 
 
+def design_expect_violation(ctx, module, cfg, invariant, finding, timeout=900, workers=None, consts=None, name=None):
+    """TLC on a design configuration that documents a known finding: the specification of the code AS IT IS
+    must violate `invariant` (TLC's counterexample is the finding at the design level).  If TLC passes, the
+    specification no longer explains the finding: exit 2 (the spec or the findings file is out of date)."""
+    r = tlc(ctx, module, cfg, timeout=timeout, workers=workers, consts=consts, name=name)
+    if r["ok"] or ("Invariant %s is violated" % invariant) not in r["out"]:
+        tail = "\n".join(r["out"].splitlines()[-25:])
+        raise Inconclusive("design config %s/%s was expected to violate %s (known finding %s) but did not:\n%s"
+                           % (module, cfg, invariant, finding, tail))
+    ctx.states += r.get("distinct", 0)
+    ctx.transitions += r.get("generated", 0)
+    log("[design] %s/%s: TLC finds the violation of %s that known finding %s describes (expected)" % (module, cfg, invariant, finding))
+    return r
+
+
 def printed(out, tag):
     """Strings printed by a spec with PrintT("<tag>..."): TLC prints a string value on one line, in
     quotes, with \\ and \" escaped.  (Tuples are wrapped over several lines when long - never
